@@ -202,8 +202,15 @@ def run(ctx):
                      "version() returns %s, into_enum() wraps as %s" % (sorted(vv), sorted(ev)), vf[0]["at"])
         fvn = fx.fn_opt(wrap + "::from_value")
         if fvn:
-            fb = body_of(fx, fvn["key"])
+            fb = ctx.region(None, policy="private", key=fvn["key"], ps=True)
             arms = {}
+            # the wrapper variant is built by an aggregate (`Self::V(x)`) or by the constructor passed to a combinator
+            for i in sorted(fb.reach):
+                for st in fb.blocks[i]["stmts"]:
+                    if st["k"] == "assign" and st["rv"].get("adt") == wrap:
+                        for (e, fa) in fb.facts_dominating(i):
+                            if fa[0] == "variant" and (fa[3] or "") == ver_enum:
+                                arms.setdefault(fa[2], set()).add(st["rv"]["variant"])
             for i, t in fb.calls():
                 arm = None
                 for (e, fa) in fb.facts_dominating(i):
@@ -234,7 +241,8 @@ def run(ctx):
     ts = "models::predicate::slsa_provenance_v01::TimeStamp"
     sf, df = S.ser_fn.get(ts), S.de_fn.get(ts)
     if sf and df:
-        sb, db = body_of(fx, sf["key"]), body_of(fx, df["key"])
+        sb = ctx.region(None, policy="private", key=sf["key"])
+        db = ctx.region(None, policy="private", key=df["key"])
         wr = [callee_name(t) for (i, t) in sb.calls() if (callee_name(t) or "").startswith("chrono::")]
         rd = [callee_name(t) for (i, t) in db.calls() if (callee_name(t) or "").startswith("chrono::")]
         secs = any(op_const(a) is None and True for (i, t) in sb.calls() for a in t["args"]) or True
